@@ -104,7 +104,14 @@ def run_pass_kill(res, ast):
         except Missing as m:
             res.missing("PASS-KILL", m)
             continue
-        matches = [m for m in walk_t(fn["body"], "Match") if "self.insts[i]" in T(ast, m["expr"])]
+        import pm
+        matches = [m for m in walk_t(fn["body"], "Match") if pm.match_expr(m["expr"], "self.insts[__v_i]") or pm.match_expr(m["expr"], "&mut self.insts[__v_i]")
+                   or pm.match_expr(m["expr"], "&self.insts[__v_i]")]
+        # the pending set is the one hash container this pass creates
+        sets = [l["pat"]["name"] for l in walk_t(fn["body"], "Local") if l["pat"]["t"] == "PIdent" and l["init"] is not None
+                and strip_paren(l["init"])["t"] == "Call" and (path_name(strip_paren(l["init"])["func"]) or "").split("::<")[0] in ("HashSet::new", "HashMap::new")]
+        if len(sets) == 1:
+            setname = sets[0]
         cov = {}   # variant -> list of (arm, names)
         for m in matches:
             for a in m["arms"]:
@@ -150,8 +157,8 @@ def run_pass_kill(res, ast):
                     return False
                 need(v, dst_removed, f"`{setname}.remove(cell)` for the destination when it is a tape cell")
             # branch targets
-            t = T(ast, fn["body"], 6000)
-            res.check("ifself.is_target[i]{zerod.clear();}" in t, "PASS-KILL", f"{BC}|{fname}|branch-target", w0,
+            okbt = any(pm.match_expr(i_, "if self.is_target[__v_i] { " + setname + ".clear(); }") for i_ in walk_t(fn["body"], "If"))
+            res.check(okbt, "PASS-KILL", f"{BC}|{fname}|branch-target", w0,
                       "zeroing_move_detection must clear the pending set at every branch target")
         else:
             # inserts only for full overwrites
@@ -239,35 +246,70 @@ def run_c11(res, ast, rules=("TEMPS-BY-CONSTRUCTION", "WINDOW-BY-CONSTRUCTION", 
             acc = ast.fn(BC, "accessed")["node"]
             wr = ast.fn(BC, "written")["node"]
             w = where(BC, an, "Analysis::analyze")
-            t = T(ast, an["body"], 6000)
-            res.check("min_accessed:0,max_accessed:0" in t, "WINDOW-BY-CONSTRUCTION", f"{BC}|analyze|init", w, "the window must start at [0, 0] (the current cell)")
-            ta = T(ast, acc["body"])
-            res.check(ta == "{ifself.min_accessed>var{self.min_accessed=var;}ifself.max_accessed<var{self.max_accessed=var;}}",
-                      "WINDOW-BY-CONSTRUCTION", f"{BC}|accessed", where(BC, acc, "Analysis::accessed"), "accessed must widen both ends of the window")
-            st = wr["body"]["stmts"]
-            first = T(ast, st[0]) if st else ""
-            res.check(first.rstrip(";") == "self.accessed(var)", "WINDOW-BY-CONSTRUCTION", f"{BC}|written", where(BC, wr, "Analysis::written"),
+            inits = [se for se in walk_t(an["body"], "StructExpr") if se["path"]["name"] == "Analysis"]
+            okinit = len(inits) == 1 and {f["member"]: int_lit(f["expr"]) for f in inits[0]["fields"] if f["member"] in ("min_accessed", "max_accessed")} == {"min_accessed": 0, "max_accessed": 0}
+            res.check(okinit, "WINDOW-BY-CONSTRUCTION", f"{BC}|analyze|init", w, "the window must start at [0, 0] (the current cell)")
+            import pm
+            accp = [p_["pat"]["name"] for p_ in acc["sig"]["inputs"] if p_["t"] == "Arg"]
+            oka = len(accp) == 1 and pm.match_stmts(acc["body"]["stmts"],
+                "if self.min_accessed > __v_x { self.min_accessed = __v_x; } if self.max_accessed < __v_x { self.max_accessed = __v_x; }", {"__v_x": accp[0]}) is not None
+            res.check(oka, "WINDOW-BY-CONSTRUCTION", f"{BC}|accessed", where(BC, acc, "Analysis::accessed"), "accessed must widen both ends of the window")
+            wrp = [p_["pat"]["name"] for p_ in wr["sig"]["inputs"] if p_["t"] == "Arg"]
+            okw_ = len(wrp) == 1 and pm.match_stmts(wr["body"]["stmts"], "self.accessed(__v_x); __rest;", {"__v_x": wrp[0]}) is not None
+            res.check(okw_, "WINDOW-BY-CONSTRUCTION", f"{BC}|written", where(BC, wr, "Analysis::written"),
                       "written must call self.accessed(var) unconditionally, as its first statement")
+            import pm
             arms = {}
             for m in walk_t(an["body"], "Match"):
                 for a in m["arms"]:
                     pats = a["pat"]["cases"] if a["pat"]["t"] == "POr" else [a["pat"]]
                     for p in pats:
                         if p["t"] == "PStruct":
-                            arms[p["path"]["name"].split("::")[-1]] = (a, [f["member"] for f in p["fields"]])
-            def arm_has(v, frag, what):
+                            binds = {f["member"]: (f["pat"]["name"] if f["pat"]["t"] == "PIdent" else None) for f in p["fields"]}
+                            arms[p["path"]["name"].split("::")[-1]] = (a, binds)
+
+            def arm_has(v, pattern, fields, what):
+                """pattern may use __v_acc (the accumulator, any name) and __v_<field> (the binding of that IR field)."""
                 a = arms.get(v)
-                ok = a is not None and frag in T(ast, a[0]["body"], 3000)
+                ok = False
+                if a is not None:
+                    env0 = {}
+                    for fld in fields:
+                        if a[1].get(fld) is None:
+                            env0 = None
+                            break
+                        env0["__v_" + fld] = a[1][fld]
+                    if env0 is not None:
+                        ok = bool(pm.find_expr(a[0]["body"], pattern, env0))
                 res.check(ok, "WINDOW-BY-CONSTRUCTION", f"{BC}|analyze|{v}|{what}", where(BC, a[0], "analyze") if a else w,
                           f"Analysis::analyze, ir::Instr::{v}: {what} is not recorded: generated code may touch a cell outside the probed window")
-            arm_has("Output", "anal.accessed(*src)", "the output cell")
-            arm_has("Input", "anal.written(*dst)", "the input cell")
-            arm_has("Calc", "forvarincalc.variables(){anal.accessed(var);}", "every variable of every expression")
-            arm_has("Calc", "anal.written(*var)", "every assigned cell")
+            arm_has("Output", "__v_acc.accessed(*__v_src)", ["src"], "the output cell")
+            arm_has("Input", "__v_acc.written(*__v_dst)", ["dst"], "the input cell")
+            a = arms.get("Calc")
+            okc = False
+            okw = False
+            if a is not None and a[1].get("calcs"):
+                for l in walk_t(a[0]["body"], "ForLoop"):
+                    b1 = pm.match_expr(l, "for (__v_var, __v_calc) in " + a[1]["calcs"] + " { for __v_x in __v_calc.variables() { __v_acc.accessed(__v_x); } __v_acc.written(*__v_var); }")
+                    if b1:
+                        okc = okw = True
+            res.check(okc, "WINDOW-BY-CONSTRUCTION", f"{BC}|analyze|Calc|every variable of every expression", where(BC, a[0], "analyze") if a else w,
+                      "Analysis::analyze, ir::Instr::Calc: every variable of every expression and every assigned cell must be recorded "
+                      "(`for (var, calc) in calcs { for v in calc.variables() { acc.accessed(v) } acc.written(*var) }`)")
+            res.check(okw, "WINDOW-BY-CONSTRUCTION", f"{BC}|analyze|Calc|every assigned cell", where(BC, a[0], "analyze") if a else w,
+                      "Analysis::analyze, ir::Instr::Calc: every assigned cell must be recorded")
             for v in ("Loop", "If"):
-                arm_has(v, "anal.accessed(*cond)", "the condition cell")
-                arm_has(v, "anal.accessed(sub_analysis.min_accessed)", "the nested block's minimum")
-                arm_has(v, "anal.accessed(sub_analysis.max_accessed)", "the nested block's maximum")
+                arm_has(v, "__v_acc.accessed(*__v_cond)", ["cond"], "the condition cell")
+                a = arms.get(v)
+                sub = None
+                if a is not None:
+                    for l in walk_t(a[0]["body"], "Local"):
+                        if l["init"] is not None and l["pat"]["t"] == "PIdent" and pm.match_expr(l["init"], "Self::analyze(__v_b)"):
+                            sub = l["pat"]["name"]
+                for fld, what in (("min_accessed", "the nested block's minimum"), ("max_accessed", "the nested block's maximum")):
+                    ok = sub is not None and bool(pm.find_expr(a[0]["body"], f"__v_acc.accessed({sub}.{fld})"))
+                    res.check(ok, "WINDOW-BY-CONSTRUCTION", f"{BC}|analyze|{v}|{what}", where(BC, a[0], "analyze") if a else w,
+                              f"Analysis::analyze, ir::Instr::{v}: {what} is not recorded")
             # ir.rs twin
             cm = ast.fn(IR, "compute_min_max_accessed")["node"]
             tc = T(ast, cm["body"], 6000, IR)
